@@ -228,3 +228,11 @@ Proof. induction a as [|x tl IH]; simpl; intros H; auto. inversion H; auto. Qed.
 Lemma Forall2_mono {A B} (P Q : A -> B -> Prop) l1 l2 :
   (forall a b, P a b -> Q a b) -> Forall2 P l1 l2 -> Forall2 Q l1 l2.
 Proof. intros H F; induction F; constructor; auto. Qed.
+
+Lemma upd_upd {A} n (f g : A -> A) l : upd n f (upd n g l) = upd n (fun x => f (g x)) l.
+Proof. revert n; induction l as [|x tl IH]; intros [|n]; simpl; auto. f_equal; auto. Qed.
+
+Lemma upd_ext_at {A} n (f g : A -> A) l d : f (nth n l d) = g (nth n l d) -> upd n f l = upd n g l.
+Proof.
+  revert n; induction l as [|x tl IH]; intros [|n] H; simpl in *; auto; [congruence|f_equal; auto].
+Qed.
